@@ -254,6 +254,42 @@ pub fn run(ctx: &Ctx) -> Report {
       _ => report.fail("model", "C15.create", case, "could not read the created torrent back".into()),
     }
   }
+  // the torrent is written into the directory it describes, twice: on the second run the first run's torrent is part of
+  // the tree. Whatever the program then counts as content, the length must fit the content the torrent lists.
+  for (i, under) in [100u64, 3000, 1 << 20].into_iter().enumerate() {
+    let sb = Sandbox::new(&ctx.work, "c15o");
+    sparse(&sb, "content/a.bin", (2u64 << 20) - under);
+    let mut verdicts = Vec::new();
+    for run in 0..2 {
+      let mut args = vec!["torrent", "create", "--input", "content", "--output", "content/out.torrent"];
+      if run == 1 {
+        args.push("--force");
+      }
+      let out = Cmd::new(&ctx.imdl, &args).cwd(&sb.root).run();
+      let t = std::fs::read(sb.path("content/out.torrent")).ok().and_then(|t| bencode::decode(&t).ok());
+      let info = t.as_ref().and_then(|v| v.get("info"));
+      let pl = info.and_then(|i| i.get("piece length")).and_then(|p| p.as_int());
+      let listed: Option<i128> = info.and_then(|i| match i.get("files") {
+        Some(crate::bencode::B::List(fs)) => fs.iter().map(|f| f.get("length").and_then(|l| l.as_int())).sum::<Option<i128>>(),
+        _ => i.get("length").and_then(|l| l.as_int()),
+      });
+      verdicts.push((out.ok(), pl, listed, out.stderr_s()));
+    }
+    report.case(Some(0xC15_F000_0000 + i as u64));
+    report.hit("create:auto-piece-length-output-inside-input-twice");
+    let case = json!({"content_bytes": (2u64 << 20) - under, "output_inside_input": true, "runs": 2});
+    for (run, (ok, pl, listed, err)) in verdicts.iter().enumerate() {
+      if !ok {
+        report.fail("property", "create-auto-rejected", case.clone(), format!("run {}: create without --piece-length failed: {err}", run + 1));
+      } else if let (Some(pl), Some(total)) = (pl, listed) {
+        if *pl != spec(*total as u64) as i128 {
+          report.fail("property", "create-auto-piece-length", case.clone(), format!("run {}: torrent lists {total} bytes of content and has piece length {pl}; the table gives {}", run + 1, spec(*total as u64)));
+        }
+      } else {
+        report.fail("model", "C15.create", case.clone(), "could not read the created torrent back".into());
+      }
+    }
+  }
   // a symbolic link as the root, followed: the content is the file behind the link, not the link
   for (i, size) in [(0u64, 3u64 << 20), (1, 64 << 20), (2, 5)].into_iter() {
     let sb = Sandbox::new(&ctx.work, "c15l");
